@@ -186,6 +186,16 @@ def s7_check(ctx, prop_id, cases, extra_filter=None):
                 ctx.violations.append(('hypothesis %s of exec_refines_spec fails on the implementation\'s compiled chain: %s (case %s)'
                                        % (flag, c.flags.get(flag), c.key),
                                        write_replay(ctx, 'case_%s.txt' % c.key, c.text()), who is not None))
+        if prop_id == 'C01':
+            vv = v5(c)
+            if vv.get('loose', '-') != '-':
+                ctx.violations.append(('interface parameter of provider(s) %s satisfied by a type none of whose upstream providers is Loose for it (case %s)'
+                                       % (vv['loose'], c.key), write_replay(ctx, 'case_%s.txt' % c.key, c.text()), True))
+            if vv.get('loose_f5', '-') != '-':
+                if known_open('C01', 'loose_f5'):
+                    ctx.cov['known_finding_hits'] = ctx.cov.get('known_finding_hits', 0) + 1
+                else:
+                    ctx.violations.append(('loose_f5: %s (case %s)' % (vv['loose_f5'], c.key), write_replay(ctx, 'case_%s.txt' % c.key, c.text()), True))
         if prop_id == 'C01' and c.flags.get('supply') != 'ok':
             ctx.violations.append(('a bound chain reads a type nobody upstream supplies (case %s)' % c.key,
                                    write_replay(ctx, 'case_%s.txt' % c.key, c.text()), True))
@@ -204,6 +214,9 @@ def s7_check(ctx, prop_id, cases, extra_filter=None):
         if len(ctx.samples) < 3 and c.nontrivial() and len(c.t) > 6:
             ctx.samples.append({'case': c.key, 'providers': [l for l in c.lines if l.startswith(('p ', 'invoke', 'init'))],
                                 'impl_trace_head': c.t[:8]})
+    if prop_id == 'C01' and ctx.cov.get('known_finding_hits'):
+        for k in known_open('C01', 'loose_f5'):
+            ctx.known.append('KNOWN-FINDING: property=C01 %s (%d cases in this run match signature loose_f5)' % (k['what'], ctx.cov['known_finding_hits']))
     ctx.cov['programs'] = n_bound
     ctx.cov['evaluations'] = len(cases)
     ctx.cov['traces_validated_against_impl'] = n_cmp
@@ -648,3 +661,120 @@ def s6_compare(case):
             if f['class'] in ('wrapper-func', 'fallible-injector') and zin != want[f['id']][1]:
                 return 'diff', 'zero-if-inner-not-called of %s impl %s model %s' % (f['id'], zin, want[f['id']][1])
     return 'same', ''
+
+
+# ---------------------------------------------------------------- validators on the implementation's bound chain
+
+def v5(case):
+    d = {}
+    for l in case.mlines:
+        if l.startswith('v5 '):
+            t = l.split()
+            d[t[1]] = t[2] if len(t) > 2 else '-'
+    return d
+
+
+def known_open(prop_id, signature):
+    return [k for k in load_known().get('open', []) if k.get('property') == prop_id and k.get('signature') == signature]
+
+
+def include_family(ctx, prop_id, checks, nontrivial, rule, extra=None, modes=(('run', None, 'default'),)):
+    """shared driver for the properties decided on the include stage (S5):
+    checks: list of (v5 key, ok value, message, known-finding signature or None)"""
+    ob, dis, details = proof_obligations(ctx, prop_id)
+    total = []; 
+    for mode, n, profile in modes:
+        cs = load_cases(ctx, mode, n, profile)
+        if cs is not None:
+            total += cs
+    corpus = load_corpus(ctx, prop_id)
+    cases = corpus + total
+    ctx.cov['corpus_cases'] = len(corpus)
+    st5 = stage_stats(ctx, cases, s5_compare, 'S5')
+    n = 0; distinct = set(); kf = collections.Counter()
+    for c in cases:
+        if not c.ok or c.skip:
+            continue
+        n += 1
+        vv = v5(c)
+        for key, okval, msg, sig in checks:
+            got = vv.get(key)
+            if got is None:
+                continue
+            if got != okval:
+                ctx.violations.append(('%s: %s (case %s)' % (msg, got, c.key), write_replay(ctx, 'case_%s.txt' % c.key, c.text()), True))
+        for key, sig, what in ((k, s, m) for k, _, m, s in checks if s):
+            got = vv.get(key + '_' + sig.split('_')[-1]) if False else None
+        if nontrivial(c):
+            distinct.add(c.shape_key())
+        if extra:
+            extra(ctx, c, kf)
+        if len(ctx.samples) < 3 and nontrivial(c):
+            ctx.samples.append({'case': c.key, 'providers': [l for l in c.lines if l.startswith(('p ', 'invoke', 'init'))],
+                                'included': [f['id'] for f in c.s7_funcs() if f['inc'] == '1'],
+                                'excluded': [f['id'] for f in c.s7_funcs() if f['inc'] == '0']})
+    for sig, cnt in kf.items():
+        for k in known_open(prop_id, sig):
+            ctx.known.append('KNOWN-FINDING: property=%s %s (%d cases in this run match signature %s)' % (prop_id, k['what'], cnt, sig))
+    ctx.cov['programs'] = n
+    ctx.cov['evaluations'] = len(cases)
+    ctx.cov['traces_validated_against_impl'] = n
+    ctx.cov['distinct_nontrivial'] = len(distinct)
+    ctx.cov['known_finding_hits'] = dict(kf)
+    if len(ctx.violations) > 5:
+        ctx.notes.append('%d violations; first 5 reported' % len(ctx.violations)); ctx.violations.sort(key=lambda v: not v[2]); ctx.violations = ctx.violations[:5]
+    return finish(ctx, 'proof', ob, dis, details, rule)
+
+
+def excluded_never_run(ctx, c, kf):
+    inc = {f['id'] for f in c.s7_funcs() if f['inc'] == '1'}
+    for l in c.t:
+        tk = l.split()
+        if tk[0] in ('call', 'wenter') and tk[1] not in inc:
+            ctx.violations.append(('provider %s is excluded but was called (case %s)' % (tk[1], c.key),
+                                   write_replay(ctx, 'case_%s.txt' % c.key, c.text()), True))
+            break
+
+
+def known_f5(prop_id, key):
+    def f(ctx, c, kf):
+        got = v5(c).get(key)
+        if got and got != '-':
+            if known_open(prop_id, key):
+                kf[key] += 1
+            else:
+                ctx.violations.append(('%s: %s (case %s)' % (key, got, c.key), write_replay(ctx, 'case_%s.txt' % c.key, c.text()), True))
+    return f
+
+
+@prop('C03')
+def c03(ctx):
+    def extra(ctx, c, kf):
+        excluded_never_run(ctx, c, kf)
+        known_f5('C03', 'unjustified_f5')(ctx, c, kf)
+        who, i = classify_diff(c.t, c.s)
+        if who == 'C05':
+            ctx.violations.append(('a provider that should run did not, or vice versa (trace differs from Spec at event %d, case %s)' % (i, c.key),
+                                   write_replay(ctx, 'case_%s.txt' % c.key, c.text()), True))
+    rule = ('generated chains (duplicate providers of a type, Shun/Desired/Required/MustConsume, unused outputs, unsatisfiable inputs); the model '
+            'computeInclusion is compared with the implementation\'s include flags and remaps (S5) on every case; validators proved sound in '
+            'Lean run on the implementation\'s own bound chain: Required included, every included provider justified by an actual receiver; '
+            'excluded providers never appear in the real trace; non-trivial = at least one user provider excluded; distinct = provider lists')
+    return include_family(ctx, 'C03',
+                          [('required', 'ok', 'a Required provider is not in the bound chain', None),
+                           ('unjustified', '-', 'included provider(s) that nothing receives anything from', None)],
+                          lambda c: any(f['inc'] == '0' and int(f['id']) < 900 for f in c.s7_funcs()), rule, extra)
+
+
+@prop('C15')
+def c15(ctx):
+    def extra(ctx, c, kf):
+        pass
+    rule = ('generated chains and invoke signatures incl. unreceived return types and shadowing wrappers; S5 correspondence (bind verdict, '
+            'include flags) on every case; validators proved sound in Lean on the implementation\'s bound chain: every non-optional returned type '
+            'of an included provider has an included receiver above; checkShadowing accepts the bound list; non-trivial = chain with a wrapper '
+            'or fallible injector (something returns upward); distinct = provider lists')
+    return include_family(ctx, 'C15',
+                          [('consumed', 'ok', 'a returned value has no included receiver above and is not ConsumptionOptional', None),
+                           ('shadow', 'ok', 'a wrapper overrides a returned type it did not receive (checkForShadowing would reject)', None)],
+                          lambda c: bool(c.features() & {'wrapper', 'fallible'}), rule, extra)
